@@ -1,3 +1,4 @@
+mod alloc_audit;
 mod comps;
 mod core;
 mod family;
@@ -10,6 +11,9 @@ mod rng;
 mod serde_ops;
 
 use crate::core::*;
+
+#[global_allocator]
+static GLOBAL: alloc_audit::Audit = alloc_audit::Audit;
 use crate::family::Family;
 use std::io::BufRead;
 
